@@ -17,6 +17,7 @@ const (
 	WrongType = "X"  // success with a response of the wrong type
 	Overrun   = "O"  // never answers; returns only when its context is cancelled
 	NilResp   = "N"  // success with a nil response
+	Late      = "L"  // ignores the cancellation of its context and answers ok whenever it is released (possibly after its timeout)
 )
 
 // ActSpec describes one action: the outcome of its k-th invocation in this process world is
